@@ -286,7 +286,7 @@ Print Assumptions C01_T01e_error_only_from_reader.
 
 (* the same for one call of Decoder::read_line *)
 Theorem C01_T01e_read_line : forall fuel d k,
-  read_line fuel d = IoErr k -> In (Fail k) (sched (inner d)).
+  read_line fuel d = IoErr k -> In (Fail k) (sched (second (inner d))).
 Proof. exact (ReaderFacts.read_line_err_from_reader EncodingFacts.decode_utf8_lossy_spec). Qed.
 Print Assumptions C01_T01e_read_line.
 
@@ -307,6 +307,14 @@ Example C01_former_d6_input :
   show (read_all_lines (mk_reader [255; 254; 97; 0; 10] [Chunk 4; Chunk 1; Interrupted; Interrupted])) = show (IoDone [lit "a"]) /\
   show (read_all_lines (mk_reader [255; 254; 97; 0; 10] [Chunk 5; Interrupted])) = show (IoDone [lit "a"]).
 Proof. exact IoWitnesses.former_d6_input_decodes. Qed.
+
+(* and what an in-memory buffer yields is what its bytes determine (the
+   reference [decode_stream]: BOM, then lines), also for buffers of one or two
+   bytes, which read_bom dropped before the repair of D4 *)
+Theorem C01_from_bytes_lines : forall b : bytes,
+  read_all_lines (mk_reader b []) = decode_stream b.
+Proof. exact TransparencyFacts.one_chunk_stream. Qed.
+Print Assumptions C01_from_bytes_lines.
 
 (* ------------------------------------------------------------------ *)
 (* LAYERS 1+2 composed: from_bytes on an in-memory buffer               *)
